@@ -1,6 +1,8 @@
 package sim
 
 import (
+	"strings"
+
 	"fmt"
 
 	"verif/sim/core"
@@ -105,6 +107,10 @@ func opStep(r *core.RNG, pool *Pool, s *Swarm, d *genDID, kind ref.OpKind, fault
 	if fault == ref.FNone && kind != ref.Deactivate && r.Chance(1, 12) {
 		// at the limit or one byte below (valid); GenFold also asks for one byte above (invalid)
 		st.PadDelta, st.PadKind = r.Range(1, 2), r.Intn(6)
+	}
+	// (not for requests anchored under another type: a member that means nothing to a recover is the signed DID suffix of a deactivate)
+	if rx := r.Stream("signed-extra"); kind != ref.Create && fault != ref.FTypeConfusion && rx.Chance(1, 4) {
+		st.SignedExtra = genSignedExtra(rx, kind)
 	}
 	st.Builder = "raw"
 	st.Via = "direct"
@@ -278,6 +284,14 @@ func GenResolve(seed uint64, pool *Pool) *Plan {
 	p.Profile = "resolve"
 	r := core.NewRNG(seed).Stream("gen/C18/resolve")
 	p.Swarm.ChainMode = false
+	// a run resolves with a few option sets only (bit 0 @base, 1/2 operation lists, 3 method contexts, 4 published, 5 presorted,
+	// 6-8 number of method contexts), so that the same transformer serves several documents
+	palette := []int{r.Intn(512), r.Intn(512), r.Intn(64)}
+	pickOpts := func() int {
+		o := core.Pick(r, palette)
+		// the bits that do not configure the transformer vary freely
+		return o&^(16|32) | r.Intn(4)<<4
+	}
 	var steps []Step
 	for _, st := range p.Steps {
 		if st.Op == SSubmit && st.Fault != ref.FNone && r.Chance(2, 3) {
@@ -289,13 +303,13 @@ func GenResolve(seed uint64, pool *Pool) *Plan {
 				steps = append(steps, Step{Op: STick, Secs: p.Swarm.BlockInterval + 1})
 			}
 			for n := r.Intn(3); n > 0; n-- {
-				steps = append(steps, Step{Op: SResolve, Node: r.Intn(3), DID: r.Intn(4), Opts: r.Intn(64)})
+				steps = append(steps, Step{Op: SResolve, Node: r.Intn(3), DID: r.Intn(4), Opts: pickOpts()})
 			}
 		}
 	}
 	steps = append(steps, Step{Op: STick, Secs: p.Swarm.BlockInterval * 3})
 	for n := 0; n < 4; n++ {
-		steps = append(steps, Step{Op: SResolve, Node: r.Intn(3), DID: n, Opts: r.Intn(64)})
+		steps = append(steps, Step{Op: SResolve, Node: r.Intn(3), DID: n, Opts: pickOpts()})
 	}
 	p.Steps = steps
 	return p
@@ -322,4 +336,29 @@ func describePlan(p *Plan) any {
 	}
 	return map[string]any{"seed": p.Seed, "profile": p.Profile, "chainMode": p.Swarm.ChainMode, "hashAlgs": p.Swarm.HashAlgs,
 		"keyAlgs": p.Swarm.KeyAlgs, "timeDelta": p.Swarm.TimeDelta, "steps": ops}
+}
+
+// genSignedExtra draws members that the signed data of the operation type does not use under the v1 rules: names of
+// the protocol vocabulary (what other operation types sign, what the request carries beside the signed data) and unknown
+// names, with values that agree with, differ from, or are unrelated to the request's own. None of them has a meaning,
+// so an operation carrying them is exactly as valid as without them.
+func genSignedExtra(r *core.RNG, kind ref.OpKind) map[string]any {
+	someHash := "EiD" + strings.Repeat("k", 43)
+	str := func() any {
+		return core.Pick(r, []any{"", "$reveal", "$suffix", someHash, "EgA", "x", "did:example:other"})
+	}
+	var names []string
+	switch kind {
+	case ref.Update:
+		names = []string{"revealValue", "didSuffix", "recoveryKey", "recoveryCommitment", "updateCommitment", "anchorOrigin", "type", "x-ext"}
+	case ref.Recover:
+		names = []string{"revealValue", "didSuffix", "updateKey", "updateCommitment", "type", "x-ext"}
+	default:
+		names = []string{"revealValue", "deltaHash", "updateKey", "recoveryCommitment", "updateCommitment", "anchorOrigin", "type", "delta", "x-ext"}
+	}
+	out := map[string]any{}
+	for n := r.Range(1, 2); n > 0; n-- {
+		out[core.Pick(r, names)] = str()
+	}
+	return out
 }
